@@ -142,6 +142,11 @@ func (t *Type) PossibleTypes() []Type {
 
 	res := []Type{}
 	for _, pt := range t.schema.GetPossibleTypes(t.def) {
+		// possibleTypes lists object types only; gqlparser also lists the interfaces that
+		// implement an interface
+		if pt.Kind != ast.Object {
+			continue
+		}
 		res = append(res, *WrapTypeFromDef(t.schema, pt))
 	}
 	return res
